@@ -119,6 +119,91 @@ def post_comb_set(s1, s2, result):
     return set(got) == {frozenset(b) for b in blocks.values()}
 
 
+def post_flat(a_list, result):
+    _count('flat')
+    from collections.abc import Iterable
+
+    def rec(a):
+        out = []
+        for it in a:
+            if isinstance(it, Iterable):
+                out.extend(rec(it))
+            else:
+                out.append(it)
+        return out
+    want = rec(a_list)
+    return len(want) == len(result) and all(a is b for a, b in zip(want, result))
+
+
+def _sp_equal(a, b):
+    import scipy.sparse as sps
+    a, b = sps.csr_matrix(a), sps.csr_matrix(b)
+    if a.shape != b.shape:
+        return False
+    d = a - b
+    return d.nnz == 0 or float(abs(d).max()) <= 1e-12
+
+
+def _pad(m, ncol):
+    import scipy.sparse as sps
+    m = sps.csr_matrix(m)
+    if m.shape[1] == ncol:
+        return m
+    return sps.hstack([m, sps.csr_matrix((m.shape[0], ncol - m.shape[1]))]).tocsr()
+
+
+def post_vert_comb(upper, lower, result):
+    _count('vert_comb')
+    import scipy.sparse as sps
+    n = max(upper.shape[1], lower.shape[1])
+    return _sp_equal(result, sps.vstack([_pad(upper, n), _pad(lower, n)]))
+
+
+def post_diag_comb(upper, lower, result):
+    _count('diag_comb')
+    import scipy.sparse as sps
+    return _sp_equal(result, sps.block_diag([upper, lower]))
+
+
+def post_add_linear(left, right, result):
+    _count('add_linear')
+    n = max(left.shape[1], right.shape[1])
+    return _sp_equal(result, _pad(left, n) + _pad(right, n))
+
+
+def post_index_array(shape, result):
+    _count('index_array')
+    shp = shape if isinstance(shape, tuple) else (int(shape),)
+    want = np.arange(int(np.prod(shp)), dtype=int).reshape(shp)
+    return result.shape == want.shape and np.array_equal(result, want)
+
+
+def post_rso_broadcast(_ARGS, result):
+    _count('rso_broadcast')
+    from numbers import Real
+    shapes, nums = [], []
+    for a in _ARGS:
+        if isinstance(a, (Real, np.ndarray)):
+            arr = np.array(a)
+            shapes.append(arr.shape)
+            nums.append(arr)
+        else:
+            shapes.append(tuple(a.to_affine().shape))
+            nums.append(None)
+    bshape = np.broadcast_shapes(*shapes)
+    n = int(np.prod(bshape)) if len(bshape) else 1
+    if len(result) != n or any(len(t) != len(_ARGS) for t in result):
+        return False
+    for k, arr in enumerate(nums):
+        if arr is None:
+            continue
+        want = np.broadcast_to(arr, bshape).reshape(-1)
+        got = np.array([float(np.asarray(t[k])) for t in result])
+        if not np.array_equal(got, want.astype(float)):
+            return False
+    return True
+
+
 def _rebind(name, new, old):
     n = 0
     for mname, mod in list(sys.modules.items()):
@@ -137,6 +222,9 @@ def _install(ctx, table):
     import rsome.lp  # noqa: F401  (make sure the importing modules exist)
     import rsome.dro  # noqa: F401
     import rsome.math  # noqa: F401
+    import rsome.gcp  # noqa: F401
+    import rsome.socp  # noqa: F401
+    import rsome.ro  # noqa: F401
     _CTX[0] = ctx
     for name, post in table:
         if name in _INSTALLED:
@@ -152,6 +240,13 @@ def install_algebra(ctx):
     _install(ctx, [('sparse_mul', post_sparse_mul), ('sp_matmul', post_sp_matmul),
                    ('sp_lmatmul', post_sp_lmatmul), ('sp_trans', post_sp_trans),
                    ('sv_to_csr', post_sv_to_csr)])
+
+
+def install_helpers(ctx, names):
+    table = {'flat': post_flat, 'vert_comb': post_vert_comb, 'diag_comb': post_diag_comb,
+             'add_linear': post_add_linear, 'index_array': post_index_array,
+             'rso_broadcast': post_rso_broadcast}
+    _install(ctx, [(n, table[n]) for n in names])
 
 
 def install_events(ctx):
